@@ -73,6 +73,7 @@ def run(run):
     fields_a, fields_b = _object_states(run, ev)
     if fields_a is None:
         return
+    fields_b = _drop_opaque_state(run, fields_b)
     _r4_geometry(run, ev, fields_a, fields_b)
     for label, fields in (("plain tiling", fields_a), ("sub-image tiling", fields_b)):
         if fields is not None:      # (the sub-image state could not be derived: already reported UNDECIDED)
@@ -97,12 +98,32 @@ def run(run):
     _common.delegate(run, "C08.R3", "C15", lambda sub: c15.buffer_layouts(sub, "C15.R7"), only_rules={"C15.R7"}, note="premise: a tile holds the image's pixels in their own type")
 
 
+def _drop_opaque_state(run, state_b):
+    """The sub-image state is usable only if its fields were followed to plain terms: a field that is still the result of a method of a
+    record / helper object (`layout.subrange(..)`) says nothing, and comparing it with the specification would be a false alarm."""
+    if state_b is None:
+        return None
+    from . import common as _common
+    fb = state_b["fields"]
+    for fld_ in ("_width", "_height", "_img_gx0", "_img_gy0", "_p2n", "_tile_levels"):
+        if fld_ not in fb:
+            continue
+        bad = [u for u in _common.unfollowed_project_calls(run.project, fb[fld_]) if show(u[1]).split(".")[-1] not in ("next_highest_power_of_2",)] + \
+              [x for x in _subterms_c08(fb[fld_]) if x[0] == "call" and x[1][0] == "attr" and x[1][1][0] in ("nt", "call") and x[1][2] not in ("get",)]
+        if bad:
+            cfs = run.project.fn(ST + ".StudyTiling.compute_for_subimage")
+            run.undecided("C08.R4", cfs, None, "the sub-tiling's %s goes through %s, which is not followed: the sub-image scenario is not decided" % (fld_, show(bad[0])[:70]),
+                          kind="subimage-opaque")
+            return None
+    return state_b
+
+
 def geometry_premises(sub):
     """C08.R4 (tiling geometry, including 'a sub-image tiling shares its parent's padded square and levels') for use as a premise elsewhere."""
     ev = _study_evaluator(sub.project)
     fields_a, fields_b = _object_states(sub, ev)
     if fields_a is not None:
-        _r4_geometry(sub, ev, fields_a, fields_b)
+        _r4_geometry(sub, ev, fields_a, _drop_opaque_state(sub, fields_b))
 
 
 def _study_evaluator(project):
@@ -434,6 +455,14 @@ def _r4_geometry(run, ev, fa, state_b):
     for fld in ("_p2n", "_tile_size", "_tile_levels"):
         if fb[fld] != f0[fld]:
             problems.append(("subimage-geometry", "sub-tiling %s differs from the parent's" % fld))
+    from . import common as _common
+    opaque = [u for fld_ in ("_width", "_height", "_img_gx0", "_img_gy0", "_p2n", "_tile_levels") if fld_ in fb for u in _common.unfollowed_project_calls(project, fb[fld_])
+              if show(u[1]).split(".")[-1] not in ("next_highest_power_of_2",)]
+    opaque += [x for fld_ in ("_width", "_height", "_img_gx0", "_img_gy0") if fld_ in fb for x in _subterms_c08(fb[fld_])
+               if x[0] == "call" and x[1][0] == "attr" and x[1][1][0] in ("nt", "call") and x[1][2] not in ("get",)]
+    if problems and opaque:
+        run.undecided("C08.R4", cfs, None, "the sub-tiling's fields go through %s, which is not followed (%s)" % (show(opaque[0])[:70], problems[0][1][:120]), kind="subimage-opaque")
+        return
     if problems:
         for kind, msg in problems:
             run.violated("C08.R4", cfs, None, msg, kind=kind)
@@ -595,3 +624,13 @@ def _r5_clones(run):
                 bad = True
         if not bad:
             run.holds("C08.R5", f, ups[0].node, "placement slices equal study.tile_image's (both parities)")
+
+
+def _subterms_c08(t):
+    if isinstance(t, tuple):
+        if t and isinstance(t[0], str):
+            yield t
+        for x in t:
+            if isinstance(x, tuple):
+                for y in _subterms_c08(x):
+                    yield y
